@@ -2,3 +2,4 @@ import Tinyproto.Model
 import Tinyproto.Lemmas
 import Tinyproto.Go
 import Tinyproto.Spec
+import Tinyproto.Budget
